@@ -67,6 +67,9 @@ WL_U_RO_sliced == <<M("C", 0, 1, 1201), M("C", 1, 2, 2401)>>
 Ch_RO12 == <<Ch(0, "RO", 12, 300)>>
 Ch_RU12 == <<Ch(0, "RU", 12, 300)>>
 WL_2_5_5 == <<M("C", 0, 1, 2), M("C", 0, 2, 5), M("C", 0, 3, 5)>>
+\* a reliable channel that uses the tick's budget to the last byte in front of an unreliable one with a queued message
+WL_2400_then_U == <<M("C", 0, 1, 2400), M("C", 1, 2, 50)>>
+WL_1200_then_U == <<M("C", 0, 1, 1200), M("C", 1, 2, 50), M("C", 1, 3, 60)>>
 P_C15 == <<"C15">>
 P_C02 == <<"C02">>
 P_REL == <<"C01", "C02", "C03", "C08">>
